@@ -216,5 +216,71 @@ func VerifC17Sorted() {
 	q := verifInt64("q")
 	got, err := s.Get(nil, q)
 	verifAssert("point-query-equals-scan", err == nil && verifHMatches(got, universe, committed, nil, []int64{q}))
+
+	// ordered cursor pagination: a walk in either direction, optionally after a cursor, returns exactly the live
+	// keys whose value lies strictly beyond the cursor, in value order, cut at the limit
+	desc := verifBool("desc")
+	hasCursor := verifBool("has-cursor")
+	cursor := verifInt64("cursor")
+	limit := verifLen("limit", 0, 2) // 0 = unlimited
+	dir := DirectionAsc
+	if desc {
+		dir = DirectionDesc
+	}
+	oq := s.Ordered(dir)
+	if hasCursor {
+		oq = oq.After(cursor)
+	}
+	page := oq.walkOrder(limit)
+	eligible := 0
+	for i, k := range universe {
+		first := true
+		for j := 0; j < i; j++ {
+			if universe[j] == k {
+				first = false
+			}
+		}
+		v, ok := verifView(committed, nil, k)
+		if ok && first && (!hasCursor || (!desc && v > cursor) || (desc && v < cursor)) {
+			eligible++
+		}
+	}
+	wantLen := eligible
+	if limit > 0 && limit < eligible {
+		wantLen = limit
+	}
+	verifAssert("page-length", len(page) == wantLen)
+	pageOK := verifHNoDup(page)
+	var prev int64
+	for i, k := range page {
+		v, ok := verifView(committed, nil, k)
+		if !ok || (hasCursor && ((!desc && v <= cursor) || (desc && v >= cursor))) {
+			pageOK = false
+		}
+		if i > 0 && ((!desc && v < prev) || (desc && v > prev)) {
+			pageOK = false
+		}
+		prev = v
+	}
+	verifAssert("page-live-beyond-cursor-in-order", pageOK)
+	// nothing closer to the cursor than the page's last element was skipped
+	if len(page) > 0 && len(page) == limit {
+		last, _ := verifView(committed, nil, page[len(page)-1])
+		closer := 0
+		for i, k := range universe {
+			first := true
+			for j := 0; j < i; j++ {
+				if universe[j] == k {
+					first = false
+				}
+			}
+			v, ok := verifView(committed, nil, k)
+			if ok && first && (!hasCursor || (!desc && v > cursor) || (desc && v < cursor)) &&
+				((!desc && v < last) || (desc && v > last)) {
+				closer++
+			}
+		}
+		verifAssert("page-skips-nothing", closer < limit)
+	}
 	verifReach("end")
 }
